@@ -12,7 +12,7 @@ import z3
 from . import smt
 from .interp import Obligation
 
-Z3_RLIMIT = int(os.environ.get("PYVC_Z3_RLIMIT", "8000000"))
+Z3_RLIMIT = int(os.environ.get("PYVC_Z3_RLIMIT", "3000000"))
 CVC5_TLIMIT_MS = int(os.environ.get("PYVC_CVC5_TLIMIT_MS", "8000"))
 CVC5 = os.environ.get("PYVC_CVC5", "/usr/bin/cvc5")
 
